@@ -87,6 +87,9 @@ def build_txns(case):
         if t.get('mi'):
             d['match_info'] = dict(t['mi'], tags=list(t['tags']))
         out.append(d)
+    if case.get('mixed'):
+        # 'mixed' shard: a merchant's payments may fall into several categories (two rules naming one merchant); only "every format renders" is asserted there
+        return out
     # one merchant = one (category, subcategory): labels of mixed merchants are last-writer and not part of the statement
     first = {}
     for d in out:
@@ -195,6 +198,16 @@ def check(case, stats: Stats):
     render('write_summary_file_vue(separate)', lambda: write_summary_file_vue(st_, sep_path, year=2024, currency_format=cur, sources=['Amex'], embedded_html=False))
     sep_data = open(os.path.join(d, 'sep', 'spending_data.js'), encoding='utf-8').read()
 
+    if case.get('mixed'):
+        cat_tot, m_tot = {}, {}
+        for t in txns:
+            if not ({x.lower() for x in t['tags']} & {x.lower() for x in SPECIAL}):
+                cat_tot[(t['category'], t['subcategory'])] = cat_tot.get((t['category'], t['subcategory']), 0) + t['amount']
+                m_tot[t['merchant']] = m_tot.get(t['merchant'], 0) + t['amount']
+        lonely = any(v > 0 for v in cat_tot.values()) and not any(v > 0 for v in m_tot.values())
+        stats.case(jhash(case), len({(t['merchant'], t['category'], t['subcategory']) for t in txns}) > len({t['merchant'] for t in txns}),
+                   {'mixed_category_merchant'} | ({'positive_category_without_positive_merchant'} if lonely else set()))
+        return
     # ---------------- same figures everywhere
     try:
         jd = json.loads(js)
@@ -339,15 +352,27 @@ def replay(case):
         obs.cleanup()
 
 
+def _few_merchants(c):
+    for t in c['txns']:
+        t['merchant'] = PLAIN[len(t['merchant']) % 2]
+        if t['tags'] and t['mo'] % 3:
+            t['tags'] = []
+    return dict(c, mixed=True)
+
+
+mixed_st = st.fixed_dictionaries({'txns': st.lists(txn_st, min_size=2, max_size=5), 'views': st.booleans(), 'currency': st.sampled_from(CURRENCIES),
+                                  'catnames': st.lists(text_st, min_size=4, max_size=4, unique=True)}).map(_few_merchants)
+
+
 def shards(tier):
     n = 500 if tier == 'quick' else 4000
-    return [('random', n)] * 16
+    return [('random', n)] * 15 + [('mixed', n)]
 
 
 def run_shard(kind, n, seed, tier):
     s = Stats()
     try:
-        campaign(case_st, check, n, seed, s, tier)
+        campaign(mixed_st if kind == 'mixed' else case_st, check, n, seed, s, tier)
     finally:
         obs.cleanup()
     return s
